@@ -137,6 +137,15 @@ pub fn gen_model(rng: &mut Rng, size: usize, with_range: bool) -> Value {
             (if rng.chance(1, 10) { vlq_class(rng, 5) } else { rng.range(0, 2000) },
              if rng.chance(1, 10) { vlq_class(rng, 6) } else { rng.range(0, 300) })
         } else { (0, 0) };
+        // now and then the original position differs from the previous token's by exactly a class boundary
+        // (+-15/16/17, +-511/512/513, +-16383/16384/16385): the last value of one VLQ digit count, the first of the next
+        let (sl, sc) = match toks.last() {
+            Some(p) if src >= 0 && p[2].as_i64().unwrap() >= 0 && rng.chance(1, 8) => {
+                let d = *rng.pick(&[15i64, 16, 17, 511, 512, 513, 16383, 16384, 16385]) * if rng.chance(1, 2) { 1 } else { -1 };
+                if rng.chance(1, 2) { (sl, (p[4].as_i64().unwrap() + d).max(0)) } else { ((p[3].as_i64().unwrap() + d).max(0), sc) }
+            }
+            _ => (sl, sc),
+        };
         let rg = if with_range && rng.chance(1, 4) { 1 } else { 0 };
         toks.push(json!([line, col, src, sl, sc, nm, rg]));
     }
@@ -163,6 +172,8 @@ pub fn gen_model(rng: &mut Rng, size: usize, with_range: bool) -> Value {
     }
     if nsrc > 0 && rng.chance(1, 4) {
         let mut ig: Vec<u64> = (0..nsrc).filter(|_| rng.chance(1, 2)).collect();
+        // the crate does not validate ignore-list entries: ids at or beyond the number of sources are legal input
+        if rng.chance(1, 4) { ig.push(nsrc + rng.below(3)); }
         shuffle(rng, &mut ig);
         m["ignore"] = json!(ig);
     }
